@@ -1,4 +1,5 @@
 import Liquid.Render
+import Proofs.ToLiquidLemmas
 /-!
 # Representation equivalence of Go values (helper definitions and lemmas for C18)
 
@@ -201,10 +202,6 @@ theorem unwrap_noDrop (v : GoVal) : noDrop v.unwrap = true := by
 
 theorem unwrap_idem (v : GoVal) : v.unwrap.unwrap = v.unwrap := by
   induction v using GoVal.unwrap.induct <;> simp_all [unwrap]
-
-theorem unwrap_toLiquid (v : GoVal) : v.toLiquid.unwrap = v.unwrap := by
-  unfold toLiquid
-  split <;> simp [unwrap]
 
 theorem norm_map_nonrec {kt vt kvs} (h : isRec (.map kt vt kvs) = false) :
     (GoVal.map kt vt kvs).norm d = .map kt .any (normKVs d kvs) := by
